@@ -392,6 +392,10 @@ def explore(ctx):
         items = [rnum(rng, 0) for _ in range(n)]
         work.append(('error_item', (items, rng.randrange(n), rng.choice(ERR_CODES[1:8]), group(rng, items))))
         xs = [rnum(rng, 0) for _ in range(n)]
+        if rng.random() < 0.4:
+            # the same points on another scale (dyadic factors: every product and sum below stays exact in doubles)
+            sc = rng.choice([2.0 ** -17, 2.0 ** -30, 2.0 ** -10, 2.0 ** 12, 2.0 ** -40])
+            xs = [x * sc for x in xs]
         work.append(('slope', ([rnum(rng, 0) for _ in range(n)], xs)))
     for vs in pmap(_worker, work):
         for (k, c, w, cls, e, g) in vs:
@@ -419,6 +423,8 @@ def search(ctx, proof, res):
         vals = [rnum(rng, 3) for _ in range(n)]
         work.append(('criteria', (vals, ([rnum(rng, 3) for _ in range(n)], rng.choice(CRITS[:9])), rng.choice(CRITS[:9]))))
         work.append(('criteria', ([rng.choice(WORDS[:6]) for _ in range(n)], ([rnum(rng, 3) for _ in range(n)], '>0'), rng.choice(CRITS[9:]))))
+        sc = rng.choice([1, 1, 2.0 ** -17, 2.0 ** -30, 2.0 ** 12])
+        work.append(('slope', ([rnum(rng, 0) for _ in range(n)], [rnum(rng, 0) * sc for _ in range(n)])))
     for vs in pmap(_worker, work):
         for (k, c, w, cls, e, g) in vs:
             R.violate({k: list(c)}, w, cls, repr(e), repr(g))
